@@ -6,129 +6,284 @@ use compute::functions::{beta, digamma, erf, gamma};
 /// distance from x to the nearest pole of Gamma (non-positive integers), for x < 0.5
 fn pole_dist(x: f64) -> f64 { if x >= 0.5 { f64::INFINITY } else { (x - x.round()).abs() } }
 
-fn f32_sweep(lo: f32, hi: f32, stride: u32, mut f: impl FnMut(f64)) {
-    // every stride-th f32 in [lo, hi], walking the bit patterns (both signs)
-    let mut ranges: Vec<(f32, f32, f64)> = vec![];
-    if lo < 0.0 { ranges.push((if hi < 0.0 { -hi } else { 0.0 }, -lo, -1.0)); }
-    if hi > 0.0 { ranges.push((if lo > 0.0 { lo } else { 0.0 }, hi, 1.0)); }
-    for (a, b, sg) in ranges {
-        let (mut i, e) = (a.to_bits(), b.to_bits());
-        while i <= e { f(sg * f32::from_bits(i) as f64); i = i.saturating_add(stride.max(1)); }
+/// glibc's own tgamma / erf exactly as `crate::libm::reference` obtains them (dlopen("libm.so.6") + dlsym), with the function pointer looked
+/// up ONCE: `reference::*` calls dlsym on every evaluation, which takes the loader lock and serialises the workers of the exhaustive sweep.
+mod fastref {
+    use std::os::raw::{c_char, c_int, c_void};
+    use std::sync::OnceLock;
+    extern "C" {
+        fn dlsym(handle: *mut c_void, symbol: *const c_char) -> *mut c_void;
+        fn dlopen(f: *const c_char, flags: c_int) -> *mut c_void;
+    }
+    type F1 = extern "C" fn(f64) -> f64;
+    fn get(name: &'static [u8]) -> F1 {
+        unsafe {
+            let h = dlopen(b"libm.so.6\0".as_ptr() as *const c_char, 2);
+            assert!(!h.is_null(), "cannot dlopen libm.so.6");
+            let p = dlsym(h, name.as_ptr() as *const c_char);
+            assert!(!p.is_null());
+            std::mem::transmute::<*mut c_void, F1>(p)
+        }
+    }
+    pub fn tgamma(x: f64) -> f64 { static F: OnceLock<F1> = OnceLock::new(); (F.get_or_init(|| get(b"tgamma\0")))(x) }
+    pub fn erf(x: f64) -> f64 { static F: OnceLock<F1> = OnceLock::new(); (F.get_or_init(|| get(b"erf\0")))(x) }
+}
+
+/// (class, severity, what, input) of one failed demand
+type Hit = (&'static str, f64, String, String);
+/// worst failure per class
+#[derive(Default)]
+struct Worst(std::collections::BTreeMap<String, (f64, String, String)>);
+impl Worst {
+    fn note(&mut self, h: Hit) {
+        let e = self.0.entry(h.0.to_string()).or_insert((0.0, String::new(), String::new()));
+        if h.1 > e.0 || e.1.is_empty() { *e = (h.1, h.2, h.3); }
+    }
+    fn merge(&mut self, o: Worst) { for (c, (sev, what, input)) in o.0 { let e = self.0.entry(c).or_insert((0.0, String::new(), String::new())); if sev > e.0 || e.1.is_empty() { *e = (sev, what, input); } } }
+}
+
+/// gamma against glibc tgamma: relative error 1e-13, scaled by pole proximity for x < 0.5. Returns (evaluated?, failure)
+fn gamma_point(x: f64, breadcrumb: bool) -> (u64, Option<Hit>) {
+    let want = fastref::tgamma(x);
+    if !want.is_finite() || want.abs() < f64::MIN_POSITIVE { return (0, None); }
+    let d = pole_dist(x);
+    // near a pole -n (n >= 1) the relative condition number |x|/d is huge: skipped; near 0 it is 1 (Gamma(x) ~ 1/x is a finite normal
+    // f64 down to |x| ~ 1e-308), so tiny arguments of either sign are in the quantifier
+    if d < 1e-3 && x.abs() >= 0.5 { return (0, None); }
+    if breadcrumb { crumb(&format!("gamma x={:e}", x)); }
+    let got = gamma(x);
+    // reflection: the relative condition number of Gamma near a pole grows like |x|/d; the property scales by proximity
+    let tol = 1e-13 * if x < 0.5 { (1.0f64).max(x.abs() / d) } else { 1.0 };
+    let err = ((got - want) / want).abs();
+    if !(err <= tol) {
+        let class = if !got.is_finite() { "gamma:nonfinite-where-true-value-finite" } else if x < 0.5 { "gamma:inaccurate-reflection" } else { "gamma:inaccurate" };
+        return (1, Some((class, if got.is_finite() { err / tol } else { f64::MAX }, format!("gamma({:e}) = {:e}, true value {:e}, relative error {:e} > {:e}", x, got, want, err, tol), format!("x={:e}", x))));
+    }
+    (1, None)
+}
+
+/// erf: odd, |erf| <= 1, within 1.5e-7 of the true erf
+fn erf_point(x: f64, breadcrumb: bool, w: &mut Worst) -> u64 {
+    if breadcrumb { crumb(&format!("erf x={:e}", x)); }
+    let got = erf(x); let want = fastref::erf(x);
+    if !(got.abs() <= 1.0) { w.note(("erf:exceeds-1", got.abs(), format!("|erf({:e})| = {:e} > 1", x, got.abs()), format!("x={:e}", x))); }
+    let err = (got - want).abs();
+    if !(err <= 1.5e-7) { w.note(("erf:inaccurate", err, format!("erf({:e}) = {:e}, true {:e}, error {:e} > 1.5e-7", x, got, want, err), format!("x={:e}", x))); }
+    let m = erf(-x);
+    if x != 0.0 && m != -got { w.note(("erf:not-odd", 1.0, format!("erf(-x) = {:e} but -erf(x) = {:e}", m, -got), format!("x={:e}", x))); }
+    if x == 0.0 && (m != -got) { w.note(("erf:not-odd-at-zero", 1.0, format!("erf(-0) = {:e} but -erf(0) = {:e} (an odd function vanishes at 0)", m, -got), "x=0".into())); }
+    1
+}
+
+/// the f32 values of [lo, hi] as (first bit pattern, last bit pattern, sign) per sign
+fn f32_ranges(lo: f32, hi: f32) -> Vec<(u32, u32, f64)> {
+    let mut ranges = vec![];
+    if lo < 0.0 { ranges.push(((if hi < 0.0 { -hi } else { 0.0f32 }).to_bits(), (-lo).to_bits(), -1.0)); }
+    if hi > 0.0 { ranges.push(((if lo > 0.0 { lo } else { 0.0f32 }).to_bits(), hi.to_bits(), 1.0)); }
+    ranges
+}
+
+/// every stride-th f32 in [lo, hi], walking the bit patterns (both signs). `jitter` = None: the aligned patterns 0, stride, 2 stride, ...
+/// (the f32 values with log2(stride) trailing zero bits: all integers and half-integers among them); `jitter` = Some(rng): one pattern drawn
+/// uniformly inside every block of `stride` consecutive patterns (a stratified sample that also reaches the values with all 24 bits set).
+/// One breadcrumb per 256 evaluations (an input that takes the process down is then known to within its neighbours; `--replay` re-runs the search).
+fn f32_sweep(lo: f32, hi: f32, stride: u32, mut jitter: Option<&mut Rng>, what: &str, mut f: impl FnMut(f64)) {
+    let stride = stride.max(1); let mut k = 0u32;
+    for (a, e, sg) in f32_ranges(lo, hi) {
+        let mut i = a as u64;
+        while i <= e as u64 {
+            let j = match jitter.as_mut() { Some(r) => (i + r.below(stride as u64)).min(e as u64), None => i };
+            let x = sg * f32::from_bits(j as u32) as f64;
+            if k % 256 == 0 { crumb(&format!("{} f32 sweep at x={:e} (bit pattern {:#x}, stride {}, next 256 points)", what, x, j, stride)); }
+            k = k.wrapping_add(1);
+            f(x); i += stride as u64;
+        }
     }
 }
+
+/// EVERY f32 in [lo, hi] (both signs), split over `threads` workers; per-thread worst failures are merged. Breadcrumbs per 2^16 values and only
+/// from worker 0 (the single-threaded searches that run BEFORE this one carry a breadcrumb per evaluation and reach every branch first).
+fn f32_exhaustive(lo: f32, hi: f32, threads: usize, what: &'static str, f: impl Fn(f64, &mut Worst) -> u64 + Sync) -> (u64, Worst) {
+    let mut total = 0u64; let mut all = Worst::default();
+    for (a, e, sg) in f32_ranges(lo, hi) {
+        let n = (e - a) as u64 + 1; let per = (n + threads as u64 - 1) / threads as u64;
+        let parts: Vec<(u64, Worst)> = std::thread::scope(|s| {
+            let hs: Vec<_> = (0..threads as u64).map(|t| { let f = &f; s.spawn(move || {
+                let (from, to) = (a as u64 + t * per, (a as u64 + (t + 1) * per).min(e as u64 + 1));
+                let mut w = Worst::default(); let mut cnt = 0u64;
+                let mut i = from;
+                while i < to {
+                    let x = sg * f32::from_bits(i as u32) as f64;
+                    if t == 0 && i % 65536 == 0 { crumb(&format!("{} exhaustive f32 sweep, worker 0 at x={:e} (bit pattern {:#x}); {} workers", what, x, i, threads)); }
+                    cnt += f(x, &mut w); i += 1;
+                }
+                (cnt, w) }) }).collect();
+            hs.into_iter().map(|h| h.join().expect("oracle worker panicked")).collect()
+        });
+        for (c, w) in parts { total += c; all.merge(w); }
+    }
+    (total, all)
+}
+
+fn next_up(x: f64) -> f64 { if x == 0.0 { f64::from_bits(1) } else if x > 0.0 { f64::from_bits(x.to_bits() + 1) } else { f64::from_bits(x.to_bits() - 1) } }
+fn next_down(x: f64) -> f64 { -next_up(-x) }
 
 pub fn oracle(tier: &str, seed: u64) -> (u64, Vec<Finding>) {
     let thorough = tier == "thorough";
     let mut r = Rng::new(seed ^ 0xC09);
     let mut out: Vec<Finding> = vec![]; let mut tried = 0u64;
-    let mut worst: std::collections::BTreeMap<String, (f64, String, String)> = Default::default();
-    let mut fail = |class: &str, sev: f64, what: String, input: String| {
-        let e = worst.entry(class.to_string()).or_insert((0.0, String::new(), String::new()));
-        if sev > e.0 || e.1.is_empty() { *e = (sev, what, input); }
-    };
-    // ---- gamma against glibc tgamma: relative error 1e-13, scaled by pole proximity for x < 0.5
-    let mut chk_gamma = |x: f64, tried: &mut u64| {
-        let want = reference::tgamma(x);
-        if !want.is_finite() || want.abs() < f64::MIN_POSITIVE { return; }
-        let d = pole_dist(x);
-        // near a pole -n (n >= 1) the relative condition number |x|/d is huge: skipped; near 0 it is 1 (Gamma(x) ~ 1/x is a finite normal
-        // f64 down to |x| ~ 1e-308), so tiny arguments of either sign are in the quantifier
-        if d < 1e-3 && x.abs() >= 0.5 { return; }
-        *tried += 1;
-        crumb(&format!("gamma x={:e}", x));
-        let got = gamma(x);
-        // reflection: the relative condition number of Gamma near a pole grows like |x|/d; the property scales by proximity
-        let tol = 1e-13 * if x < 0.5 { (1.0f64).max(x.abs() / d) } else { 1.0 };
-        let err = ((got - want) / want).abs();
-        if !(err <= tol) {
-            let class = if !got.is_finite() { "gamma:nonfinite-where-true-value-finite" } else if x < 0.5 { "gamma:inaccurate-reflection" } else { "gamma:inaccurate" };
-            fail(class, if got.is_finite() { err / tol } else { f64::MAX }, format!("gamma({:e}) = {:e}, true value {:e}, relative error {:e} > {:e}", x, got, want, err, tol), format!("x={:e}", x));
-        }
-    };
-    let stride = if thorough { 1u32 << 6 } else { 1u32 << 12 };
-    f32_sweep(-170.0, 171.6, stride, |x| chk_gamma(x, &mut tried));
-    for _ in 0..(if thorough { 200000 } else { 20000 }) { let x = r.uniform(-170.0, 171.6); chk_gamma(x, &mut tried); }
-    for n in 1..=171 { chk_gamma(n as f64, &mut tried); chk_gamma(n as f64 + 0.5, &mut tried); }
-    // tiny arguments of both signs at every decade (not powers of two: the low bits matter)
-    for k in 1..=300i32 { for sgn in [1.0, -1.0] { for _ in 0..(if thorough { 20 } else { 3 }) { let x = sgn * r.uniform(1.0, 10.0) * (10.0f64).powi(-k); chk_gamma(x, &mut tried); } } }
+    let mut worst = Worst::default();
+    macro_rules! fail { ($class:expr, $sev:expr, $what:expr, $input:expr) => { worst.note(($class, $sev, $what, $input)) } }
+    macro_rules! chk_gamma { ($x:expr) => {{ let (n, h) = gamma_point($x, true); tried += n; if let Some(h) = h { worst.note(h); } }} }
+    // ---- gamma against glibc tgamma on single points (a breadcrumb per evaluation); the dense sweeps come last
+    for _ in 0..(if thorough { 200000 } else { 20000 }) { let x = r.uniform(-170.0, 171.6); chk_gamma!(x); }
+    for n in 1..=171 { chk_gamma!(n as f64); chk_gamma!(n as f64 + 0.5); }
+    // tiny arguments of both signs at every decade (not powers of two: the low bits matter), down to where Gamma(x) ~ 1/x overflows
+    for k in 1..=308i32 { for sgn in [1.0, -1.0] { for _ in 0..(if thorough { 20 } else { 3 }) { let x = sgn * r.uniform(1.0, 10.0) * (10.0f64).powi(-k); chk_gamma!(x); } } }
+    // the ends of the stated range (-170, 171.6): the last unit interval on either side, where the true value is closest to the overflow /
+    // underflow threshold, and the f64 neighbours of the end points
+    for _ in 0..(if thorough { 40000 } else { 4000 }) { chk_gamma!(r.uniform(170.6, 171.6)); chk_gamma!(r.uniform(-170.0, -169.0)); chk_gamma!(r.uniform(-170.0, -140.0)); }
+    for x in [next_down(171.6), next_down(next_down(171.6)), 171.5, 171.59999, next_up(-170.0) + 1e-3, -169.5, -169.999, -169.001] { chk_gamma!(x); }
+    // the branch switch at 1/2 (reflection below, Lanczos sum from 1/2 on) and the f64 neighbours of 1/2, 1, 2, 0
+    for c in [0.5f64, 1.0, 2.0, 1.5, -0.5, -1.5] { let (mut lo, mut hi) = (c, c); for _ in 0..8 { chk_gamma!(lo); chk_gamma!(hi); lo = next_down(lo); hi = next_up(hi); } }
+    for _ in 0..(if thorough { 20000 } else { 2000 }) { let e = (r.uniform((1e-16f64).ln(), (0.4f64).ln())).exp(); chk_gamma!(0.5 - e); chk_gamma!(0.5 + e); }
+    for x in [f64::MIN_POSITIVE, -f64::MIN_POSITIVE, 1e-308, -1e-308, 6e-309, -6e-309] { chk_gamma!(x); }
+    // just outside every pole neighbourhood (distance 1e-3 .. 1/2 from each pole -1 .. -169, log-uniform, both sides): the scaled tolerance
+    // |x|/d is exercised where it is largest
+    for n in 1..=169 { for _ in 0..(if thorough { 40 } else { 6 }) { let d = (r.uniform((1.0001e-3f64).ln(), (0.5f64).ln())).exp(); chk_gamma!(-(n as f64) + d); chk_gamma!(-(n as f64) - d); } }
     // ---- identities: Gamma(x+1) = x Gamma(x), Gamma(n+1) = n!
     for _ in 0..(if thorough { 50000 } else { 5000 }) {
         let x = r.uniform(0.01, 170.0); tried += 1;
+        crumb(&format!("gamma x={:e} and x+1", x));
         let (a, b) = (gamma(x + 1.0), x * gamma(x));
         let err = ((a - b) / b).abs();
-        if !(err <= 2e-13) { fail("gamma:recurrence", err, format!("gamma(x+1) = {:e} but x*gamma(x) = {:e} (relative difference {:e})", a, b, err), format!("x={:e}", x)); }
+        if !(err <= 2e-13) { fail!("gamma:recurrence", err, format!("gamma(x+1) = {:e} but x*gamma(x) = {:e} (relative difference {:e})", a, b, err), format!("x={:e}", x)); }
+    }
+    // the same identity for tiny x (x + 1 rounds to 1: Gamma(1) = 1 against x Gamma(x)), over the last unit interval below the overflow
+    // point, and through the reflection branch (negative x off the poles, tolerance scaled by pole proximity as in the accuracy clause)
+    for i in 0..(if thorough { 60000 } else { 6000 }) {
+        let x = match i % 3 { 0 => (r.uniform((1e-300f64).ln(), 0.0)).exp(), 1 => r.uniform(169.6, 170.6), _ => r.uniform(-170.0, 0.0) };
+        let scale = if x < 0.0 { let d = pole_dist(x); if d < 1e-3 { continue; } (1.0f64).max((x.abs() + 1.0) / d) } else { 1.0 };
+        tried += 1;
+        crumb(&format!("gamma x={:e} and x+1", x));
+        let (a, b) = (gamma(x + 1.0), x * gamma(x));
+        if !b.is_finite() || b.abs() < f64::MIN_POSITIVE || reference::tgamma(x + 1.0).abs() < f64::MIN_POSITIVE { continue; }
+        let err = ((a - b) / b).abs();
+        if !(err <= 2e-13 * scale) { fail!("gamma:recurrence", err / scale, format!("gamma(x+1) = {:e} but x*gamma(x) = {:e} (relative difference {:e} > {:e})", a, b, err, 2e-13 * scale), format!("x={:e}", x)); }
     }
     let mut fact = 1.0f64;
     for n in 1..=170u32 { fact *= n as f64; tried += 1; let g = gamma(n as f64 + 1.0); let err = ((g - fact) / fact).abs();
-        if !(err <= 1e-13) { fail("gamma:factorial", if g.is_finite() { err } else { f64::MAX }, format!("gamma({}) = {:e}, {}! = {:e}", n + 1, g, n, fact), format!("n={}", n)); } }
+        if !(err <= 1e-13) { fail!("gamma:factorial", if g.is_finite() { err } else { f64::MAX }, format!("gamma({}) = {:e}, {}! = {:e}", n + 1, g, n, fact), format!("n={}", n)); } }
     // ---- beta
-    for _ in 0..(if thorough { 100000 } else { 10000 }) {
-        let (a, b) = if r.coin(0.5) { (r.uniform(1e-3, 80.0), r.uniform(1e-3, 80.0)) } else { ((r.uniform((1e-3f64).ln(), (80f64).ln())).exp(), (r.uniform((1e-3f64).ln(), (80f64).ln())).exp()) };
-        tried += 1;
+    let chk_beta = |a: f64, b: f64, exact: Option<f64>, worst: &mut Worst, tried: &mut u64| {
+        *tried += 1;
         let want = (reference::lgamma(a) + reference::lgamma(b) - reference::lgamma(a + b)).exp();
         let want2 = reference::tgamma(a) * reference::tgamma(b) / reference::tgamma(a + b);
         let want = if want2.is_finite() && want2 > 0.0 { want2 } else { want };
+        let want = exact.unwrap_or(want);
         crumb(&format!("beta a={:e} b={:e}", a, b));
         let got = beta(a, b);
         let err = ((got - want) / want).abs();
-        if !(err <= 1e-12) { fail(if got.is_finite() && got != 0.0 { "beta:inaccurate" } else { "beta:degenerate" }, err, format!("beta({:e},{:e}) = {:e}, Gamma(a)Gamma(b)/Gamma(a+b) = {:e}", a, b, got, want), format!("a={:e} b={:e}", a, b)); }
+        if !(err <= 1e-12) { worst.note((if got.is_finite() && got != 0.0 { "beta:inaccurate" } else { "beta:degenerate" }, err, format!("beta({:e},{:e}) = {:e}, Gamma(a)Gamma(b)/Gamma(a+b) = {:e}", a, b, got, want), format!("a={:e} b={:e}", a, b))); }
         let sym = beta(b, a); let e2 = ((got - sym) / want).abs();
-        if !(e2 <= 1e-12) { fail("beta:asymmetric", e2, format!("beta(a,b) = {:e} but beta(b,a) = {:e}", got, sym), format!("a={:e} b={:e}", a, b)); }
+        if !(e2 <= 1e-12) { worst.note(("beta:asymmetric", e2, format!("beta(a,b) = {:e} but beta(b,a) = {:e}", got, sym), format!("a={:e} b={:e}", a, b))); }
+    };
+    let (l0, l1) = ((1e-3f64).ln(), (80f64).ln());
+    for _ in 0..(if thorough { 100000 } else { 10000 }) {
+        let (a, b) = if r.coin(0.5) { (r.uniform(1e-3, 80.0), r.uniform(1e-3, 80.0)) } else { ((r.uniform(l0, l1)).exp(), (r.uniform(l0, l1)).exp()) };
+        chk_beta(a, b, None, &mut worst, &mut tried);
+    }
+    // the corners and edges of (1e-3, 80)^2 that independent draws reach rarely: one argument tiny (reflection branch) with the other large,
+    // both tiny (a + b on either side of the branch switch at 1/2), both large (Gamma(a+b) up to Gamma(160))
+    for i in 0..(if thorough { 60000 } else { 6000 }) {
+        let (a, b) = match i % 4 {
+            0 => ((r.uniform(l0, (0.5f64).ln())).exp(), r.uniform(40.0, 80.0)),
+            1 => ((r.uniform(l0, (0.5f64).ln())).exp(), (r.uniform(l0, (0.5f64).ln())).exp()),
+            2 => (r.uniform(60.0, 80.0), r.uniform(60.0, 80.0)),
+            _ => ((r.uniform(l0, (1e-2f64).ln())).exp(), (r.uniform((70f64).ln(), l1)).exp()),
+        };
+        chk_beta(a, b, None, &mut worst, &mut tried);
+    }
+    {
+        let edge = [next_up(1e-3), 1.0000001e-3, 2e-3, 0.01, 0.1, 0.25, next_down(0.5), 0.5, next_up(0.5), next_down(1.0), 1.0, next_up(1.0), 2.0, 40.0, 79.0, 79.9999, next_down(80.0)];
+        for &a in &edge { for &b in &edge { chk_beta(a, b, None, &mut worst, &mut tried); } }
     }
     // ---- beta on the grid of special values (exactly 1, 2, 3, 1/2, ... in either slot): B(a,1) = 1/a, B(1,b) = 1/b, B(m,n) by factorials
     {
         let grid = [0.25, 0.5, 1.0, 1.5, 2.0, 2.5, 3.0, 4.0, 5.0, 7.0, 10.0, 20.0, 50.0, 80.0];
-        for &a in &grid { for &b in &grid {
-            tried += 1;
-            let want = reference::tgamma(a) * reference::tgamma(b) / reference::tgamma(a + b);
-            let want = if b == 1.0 { 1.0 / a } else if a == 1.0 { 1.0 / b } else { want };
-            crumb(&format!("beta a={:e} b={:e}", a, b));
-            let got = beta(a, b);
-            let err = ((got - want) / want).abs();
-            if !(err <= 1e-12) { fail(if got.is_finite() && got != 0.0 { "beta:inaccurate" } else { "beta:degenerate" }, err, format!("beta({:e},{:e}) = {:e}, Gamma(a)Gamma(b)/Gamma(a+b) = {:e}", a, b, got, want), format!("a={:e} b={:e}", a, b)); }
-            let sym = beta(b, a); let e2 = ((got - sym) / want).abs();
-            if !(e2 <= 1e-12) { fail("beta:asymmetric", e2, format!("beta(a,b) = {:e} but beta(b,a) = {:e}", got, sym), format!("a={:e} b={:e}", a, b)); }
-        }}
+        for &a in &grid { for &b in &grid { chk_beta(a, b, if b == 1.0 { Some(1.0 / a) } else if a == 1.0 { Some(1.0 / b) } else { None }, &mut worst, &mut tried); } }
+        // every pair of integers and half-integers below 80 (quick: every pair on a coarser grid plus the full first rows)
+        let step = if thorough { 1 } else { 7 };
+        for i in 1..160usize { for j in 1..160usize { if i % step == 0 && j % step == 0 || i <= 4 { let (a, b) = (i as f64 / 2.0, j as f64 / 2.0);
+            chk_beta(a, b, if b == 1.0 { Some(1.0 / a) } else if a == 1.0 { Some(1.0 / b) } else { None }, &mut worst, &mut tried); } } }
     }
     // ---- digamma: integers against harmonic numbers, recurrence, accuracy 1e-10 rel. to max(1,|psi|)
     const EULER: f64 = 0.577_215_664_901_532_9;
     let mut h = 0.0f64; let mut hc = 0.0f64; // Kahan harmonic
-    let nmax = if thorough { 10000 } else { 2000 };
+    let nmax = 10000; // "all integers <= 1e4": at both tiers
     for n in 1..=nmax { tried += 1;
         crumb(&format!("digamma n={}", n));
         let want = h - EULER; let got = digamma(n as f64);
         let err = (got - want).abs() / want.abs().max(1.0);
-        if !(err <= 1e-10) { fail("digamma:integers", err, format!("digamma({}) = {:e}, H_(n-1) - gamma = {:e}", n, got, want), format!("n={}", n)); }
+        if !(err <= 1e-10) { fail!("digamma:integers", err, format!("digamma({}) = {:e}, H_(n-1) - gamma = {:e}", n, got, want), format!("n={}", n)); }
         let y = 1.0 / n as f64 - hc; let t = h + y; hc = (t - h) - y; h = t; }
-    for _ in 0..(if thorough { 100000 } else { 10000 }) {
-        let x = (r.uniform((1e-3f64).ln(), (1e6f64).ln())).exp(); tried += 1;
+    // half-integers: psi(n + 1/2) = -gamma - 2 ln 2 + 2 (1 + 1/3 + ... + 1/(2n-1)) (closed form, independent of the series reference below)
+    {
+        let (mut o, mut oc) = (0.0f64, 0.0f64); // Kahan sum of 1/(2k-1)
+        for n in 0..=nmax { tried += 1;
+            if n >= 1 { let y = 1.0 / (2 * n - 1) as f64 - oc; let t = o + y; oc = (t - o) - y; o = t; }
+            let x = n as f64 + 0.5;
+            crumb(&format!("digamma x={:e}", x));
+            let want = -EULER - 2.0 * std::f64::consts::LN_2 + 2.0 * o; let got = digamma(x);
+            let err = (got - want).abs() / want.abs().max(1.0);
+            if !(err <= 1e-10) { fail!("digamma:half-integers", err, format!("digamma({}) = {:e}, -gamma - 2 ln 2 + 2 sum_(k<={}) 1/(2k-1) = {:e}", x, got, n, want), format!("x={:e}", x)); }
+        }
+    }
+    let chk_digamma = |x: f64, worst: &mut Worst, tried: &mut u64| {
+        *tried += 1;
         crumb(&format!("digamma x={:e} and x+1", x));
         let (a, b) = (digamma(x + 1.0), digamma(x) + 1.0 / x);
         let err = (a - b).abs() / a.abs().max(1.0).max(1.0 / x);
-        if !(err <= 1e-10) { fail("digamma:recurrence", err, format!("digamma(x+1) = {:e}, digamma(x)+1/x = {:e}", a, b), format!("x={:e}", x)); }
+        if !(err <= 1e-10) { worst.note(("digamma:recurrence", err, format!("digamma(x+1) = {:e}, digamma(x)+1/x = {:e}", a, b), format!("x={:e}", x))); }
         // independent reference: numerical derivative of lgamma is too rough; use the series at x+20 with recurrence in double-double-free form
         let mut s = 0.0; let mut y = x; while y < 30.0 { s += 1.0 / y; y += 1.0; }
         let y2 = y * y; let asym = reference_ln(y) - 0.5 / y - 1.0 / (12.0 * y2) * (1.0 - 1.0 / (10.0 * y2) * (1.0 - 10.0 / (21.0 * y2) * (1.0 - 21.0 / (20.0 * y2))));
         crumb(&format!("digamma x={:e}", x));
         let want = asym - s; let got = digamma(x);
         let err = (got - want).abs() / want.abs().max(1.0);
-        if !(err <= 1e-10) { fail("digamma:inaccurate", err, format!("digamma({:e}) = {:e}, reference {:e}", x, got, want), format!("x={:e}", x)); }
-    }
-    // ---- erf: odd, |erf| <= 1, within 1.5e-7 of the true erf
-    let mut chk_erf = |x: f64, tried: &mut u64| { *tried += 1;
-        crumb(&format!("erf x={:e}", x));
-        let got = erf(x); let want = reference::erf(x);
-        if !(got.abs() <= 1.0) { fail("erf:exceeds-1", got.abs(), format!("|erf({:e})| = {:e} > 1", x, got.abs()), format!("x={:e}", x)); }
-        let err = (got - want).abs();
-        if !(err <= 1.5e-7) { fail("erf:inaccurate", err, format!("erf({:e}) = {:e}, true {:e}, error {:e} > 1.5e-7", x, got, want, err), format!("x={:e}", x)); }
-        let m = erf(-x);
-        if x != 0.0 && m != -got { fail("erf:not-odd", 1.0, format!("erf(-x) = {:e} but -erf(x) = {:e}", m, -got), format!("x={:e}", x)); }
-        if x == 0.0 && (m != -got) { fail("erf:not-odd-at-zero", 1.0, format!("erf(-0) = {:e} but -erf(0) = {:e} (an odd function vanishes at 0)", m, -got), "x=0".into()); }
+        if !(err <= 1e-10) { worst.note(("digamma:inaccurate", err, format!("digamma({:e}) = {:e}, reference {:e}", x, got, want), format!("x={:e}", x))); }
     };
-    f32_sweep(-6.0, 6.0, if thorough { 1 << 4 } else { 1 << 10 }, |x| chk_erf(x, &mut tried));
-    for _ in 0..(if thorough { 200000 } else { 20000 }) { let x = r.uniform(-40.0, 40.0); chk_erf(x, &mut tried); }
-    chk_erf(0.0, &mut tried);
-    for (class, (_, what, input)) in worst { out.push(Finding { class, what, input }); }
+    for _ in 0..(if thorough { 100000 } else { 10000 }) { let x = (r.uniform((1e-3f64).ln(), (1e6f64).ln())).exp(); chk_digamma(x, &mut worst, &mut tried); }
+    // every recurrence depth 0..7 uniformly (the log-uniform draw puts few points in each unit interval), the switch to the series at 6,
+    // the root of psi near 1.4616 (the tolerance is absolute there), and the two ends of the stated range
+    for _ in 0..(if thorough { 50000 } else { 5000 }) { chk_digamma(r.uniform(1e-3, 8.0), &mut worst, &mut tried); chk_digamma(r.uniform(1e5, 1e6), &mut worst, &mut tried); chk_digamma(r.uniform(1e-3, 1e-2), &mut worst, &mut tried); }
+    for c in [1.0f64, 2.0, 3.0, 4.0, 5.0, 6.0, 7.0, 1.461_632_144_968_362_3] { let (mut lo, mut hi) = (c, c); for _ in 0..4 { chk_digamma(lo, &mut worst, &mut tried); chk_digamma(hi, &mut worst, &mut tried); lo = next_down(lo); hi = next_up(hi); } }
+    for x in [next_up(1e-3), 1.001e-3, next_down(1e6), 999_999.5, 999_999.0, 5.999_999, 6.000_001] { chk_digamma(x, &mut worst, &mut tried); }
+    // ---- erf on single points: random f64 in +-40, the ends, where exp(-x^2) becomes subnormal and then 0 (x ~ 26.6 .. 27.3), tiny
+    // arguments of both signs at every decade down to the smallest subnormal, the f64 neighbours of 0, 6, 40
+    for _ in 0..(if thorough { 200000 } else { 20000 }) { let x = r.uniform(-40.0, 40.0); tried += erf_point(x, true, &mut worst); }
+    tried += erf_point(0.0, true, &mut worst);
+    for _ in 0..(if thorough { 20000 } else { 2000 }) { tried += erf_point(r.uniform(26.0, 28.0), true, &mut worst); tried += erf_point(r.uniform(5.5, 10.0), true, &mut worst); }
+    for k in 1..=323i32 { for _ in 0..(if thorough { 10 } else { 2 }) { let x = r.uniform(1.0, 10.0) * (10.0f64).powi(-k); tried += erf_point(x, true, &mut worst); } }
+    for x in [f64::from_bits(1), f64::MIN_POSITIVE, next_down(f64::MIN_POSITIVE), 6.0, next_up(6.0), next_down(6.0), 40.0, next_down(40.0), 39.999, 26.0, 27.0, 27.3, 1.0, 0.5, 3.5] { tried += erf_point(x, true, &mut worst); tried += erf_point(-x, true, &mut worst); }
+    // ---- the f32 sweeps. Quick: the aligned stratified subsample (f32 values with 12 / 10 trailing zero bits: contains every integer and
+    // half-integer) and a jittered one (one value drawn inside every block of 512 / 256 consecutive f32 values, seed-dependent).
+    // Thorough: EVERY f32-representable argument of (-170, 171.6) for gamma and of [-6, 6] for erf, as the quantifier says.
+    if thorough {
+        let threads = std::env::var("C09_ORACLE_THREADS").ok().and_then(|s| s.parse().ok()).unwrap_or(4usize).max(1);
+        let (n, w) = f32_exhaustive(-170.0, 171.6, threads, "gamma", |x, w| { let (n, h) = gamma_point(x, false); if let Some(h) = h { w.note(h); } n });
+        tried += n; worst.merge(w);
+        let (n, w) = f32_exhaustive(-6.0, 6.0, threads, "erf", |x, w| erf_point(x, false, w));
+        tried += n; worst.merge(w);
+    } else {
+        let mut w = Worst::default(); let mut n = 0u64;
+        f32_sweep(-170.0, 171.6, 1 << 12, None, "gamma", |x| { let (k, h) = gamma_point(x, false); n += k; if let Some(h) = h { w.note(h); } });
+        f32_sweep(-170.0, 171.6, 1 << 9, Some(&mut r), "gamma", |x| { let (k, h) = gamma_point(x, false); n += k; if let Some(h) = h { w.note(h); } });
+        f32_sweep(-6.0, 6.0, 1 << 10, None, "erf", |x| { n += erf_point(x, false, &mut w); });
+        f32_sweep(-6.0, 6.0, 1 << 8, Some(&mut r), "erf", |x| { n += erf_point(x, false, &mut w); });
+        tried += n; worst.merge(w);
+    }
+    for (class, (_, what, input)) in worst.0 { out.push(Finding { class, what, input }); }
     (tried, out)
 }
 fn reference_ln(x: f64) -> f64 { x.ln() }
@@ -155,6 +310,14 @@ pub fn gen(tier: &str, seed: u64, outdir: &str) {
     for _ in 0..50 * k { gx.push((r.uniform(171.0, 180.0), "gamma/overflow-edge")); }
     for _ in 0..50 * k { gx.push(((r.uniform(-700.0, 0.0)).exp(), "gamma/tiny-positive")); }
     for x in [0.0, -0.0, 0.5, 0.49999999999999994, 1.0, 2.0, -1.0, -2.0, f64::INFINITY, f64::NEG_INFINITY, f64::NAN, 1e-300, -1e-300, 5e-324, 171.6, 171.7, 200.0, -170.5, -200.5] { gx.push((x, "gamma/special")); }
+    // added by the coverage audit: negative half-integers (reflection exactly between two poles), tiny negative arguments, the f64 neighbours
+    // of the branch switch 1/2 and of 1, the two ends of the property's range, the last finite values, and arguments of extreme magnitude
+    for n in 0..=171 { gx.push((-(n as f64) - 0.5, "gamma/negative-half-integer")); }
+    for _ in 0..50 * k { gx.push((-(r.uniform(-700.0, 0.0)).exp(), "gamma/tiny-negative")); }
+    for _ in 0..50 * k { gx.push((0.5 + (r.uniform(-37.0, -1.0)).exp() * if r.coin(0.5) { 1.0 } else { -1.0 }, "gamma/branch-switch")); }
+    for _ in 0..60 * k { gx.push((if r.coin(0.5) { r.uniform(170.6, 171.7) } else { r.uniform(-171.2, -169.0) }, "gamma/range-end")); }
+    for c in [0.5f64, 1.0, 2.0] { gx.push((next_up(c), "gamma/special")); gx.push((next_down(c), "gamma/special")); gx.push((next_up(next_up(c)), "gamma/special")); gx.push((next_down(next_down(c)), "gamma/special")); }
+    for x in [next_down(171.6), 171.62, 171.6243, 171.6244, 171.63, -170.0, next_up(-170.0), -170.99, -170.62, -171.5, -0.5, -1.5, f64::MIN_POSITIVE, -f64::MIN_POSITIVE, next_down(f64::MIN_POSITIVE), -5e-324, 6e-309, -6e-309, 1e10, -1e10 + 0.5, 1e300, -1e300, f64::MAX, f64::MIN, 4503599627370496.5, -4503599627370495.5] { gx.push((x, "gamma/special")); }
     for (x, tag) in gx {
         let (t, e) = one(|| gamma(x));
         cs.push(app("CGamma", vec![libm_table(&t), Tm::F(x), e]), tag, x != 1.0 && x != 2.0);
@@ -170,6 +333,20 @@ pub fn gen(tier: &str, seed: u64, outdir: &str) {
         let (t, e) = one(|| beta(a, b));
         cs.push(app("CBeta", vec![libm_table(&t), Tm::F(a), Tm::F(b), e]), "beta/special-grid", true);
     }}
+    // added by the coverage audit: the corners of (1e-3, 80)^2 (tiny with large, both tiny across the switch a + b = 1/2, both large), the
+    // edges themselves, and arguments where Gamma(a + b) or a factor overflows / is a pole / is not a number
+    for i in 0..120 * k {
+        let (a, b) = match i % 4 { 0 => ((r.uniform(-6.9, -0.7)).exp(), r.uniform(40.0, 80.0)), 1 => ((r.uniform(-6.9, -0.7)).exp(), (r.uniform(-6.9, -0.7)).exp()), 2 => (r.uniform(60.0, 80.0), r.uniform(60.0, 80.0)), _ => (r.uniform(70.0, 80.0), (r.uniform(-6.9, -4.6)).exp()) };
+        let (t, e) = one(|| beta(a, b));
+        cs.push(app("CBeta", vec![libm_table(&t), Tm::F(a), Tm::F(b), e]), "beta/corner", true);
+    }
+    {
+        let edge = [0.0, -0.0, 1e-300, 1e-3, next_up(1e-3), next_down(0.5), 0.5, 1.0, 80.0, next_down(80.0), 85.8, 100.0, 171.0, 200.0, -1.0, -0.5, f64::INFINITY, f64::NAN];
+        for &a in &edge { for &b in &edge {
+            let (t, e) = one(|| beta(a, b));
+            cs.push(app("CBeta", vec![libm_table(&t), Tm::F(a), Tm::F(b), e]), "beta/edge", true);
+        }}
+    }
     // digamma: recurrence depths 0..6 and beyond (negative arguments), large arguments, integers
     let mut dx: Vec<(f64, &str)> = vec![];
     for n in 1..=40 { dx.push((n as f64, "digamma/integer")); }
@@ -177,6 +354,14 @@ pub fn gen(tier: &str, seed: u64, outdir: &str) {
     for _ in 0..100 * k { dx.push((r.uniform(0.0, 6.0), "digamma/recurrence")); }
     for _ in 0..60 * k { dx.push((r.uniform(-50.0, 0.0), "digamma/negative")); }
     for x in [6.0, 5.999999999999999, 0.0, -0.0, -1.0, 1e-300, f64::INFINITY, f64::NAN, 1e300] { dx.push((x, "digamma/special")); }
+    // added by the coverage audit: half-integers, large integers up to 1e4 (the property's harmonic-number clause), both ends of (1e-3, 1e6),
+    // every integer switch point with its f64 neighbours, the root of psi, negative half-integers
+    for n in 0..=40 { dx.push((n as f64 + 0.5, "digamma/half-integer")); }
+    for _ in 0..60 * k { dx.push((r.range(41, 10000) as f64, "digamma/large-integer")); }
+    for n in [100.0, 1000.0, 9999.0, 10000.0, 1e5, 1e6] { dx.push((n, "digamma/large-integer")); }
+    for _ in 0..40 * k { dx.push((r.uniform(1e-3, 2e-3), "digamma/range-end")); dx.push((r.uniform(9e5, 1e6), "digamma/range-end")); }
+    for c in 1..=7 { let c = c as f64; dx.push((next_up(c), "digamma/special")); dx.push((next_down(c), "digamma/special")); }
+    for x in [1e-3, next_up(1e-3), next_down(1e6), 1.461_632_144_968_362_3, -0.5, -1.5, -10.5, f64::MIN_POSITIVE, 5e-324, -1e-300, 1e15, f64::MAX] { dx.push((x, "digamma/special")); }
     for (x, tag) in dx {
         let (t, e) = one(|| digamma(x));
         cs.push(app("CDigamma", vec![libm_table(&t), Tm::F(x), e]), tag, x != 6.0);
@@ -187,9 +372,14 @@ pub fn gen(tier: &str, seed: u64, outdir: &str) {
     for _ in 0..100 * k { ex.push((r.uniform(-40.0, 40.0), "erf/tails")); }
     for _ in 0..50 * k { ex.push(((r.uniform(-700.0, 0.0)).exp() * if r.coin(0.5) { 1.0 } else { -1.0 }, "erf/tiny")); }
     for x in [0.0, -0.0, 1.0, -1.0, f64::INFINITY, f64::NEG_INFINITY, 5e-324, -5e-324, 26.0, 27.0, -27.0, 1e200] { ex.push((x, "erf/special")); }
+    // added by the coverage audit: where exp(-x^2) turns subnormal and then 0, the ends of the two stated ranges with their f64 neighbours,
+    // f32-representable arguments (the sweep's population)
+    for _ in 0..60 * k { ex.push((r.uniform(26.0, 28.0) * if r.coin(0.5) { 1.0 } else { -1.0 }, "erf/underflow-edge")); }
+    for _ in 0..100 * k { ex.push(((r.uniform(-6.0, 6.0) as f32) as f64, "erf/f32")); }
+    for x in [6.0, next_up(6.0), next_down(6.0), 40.0, next_down(40.0), 26.6, 27.3, f64::MIN_POSITIVE, next_down(f64::MIN_POSITIVE), f64::MAX] { ex.push((x, "erf/special")); ex.push((-x, "erf/special")); }
     for (x, tag) in ex {
         let (t, e) = one(|| erf(x));
         cs.push(app("CErf", vec![libm_table(&t), Tm::F(x), e]), tag, x != 0.0);
     }
-    cs.write(outdir, 500, "gamma at all integers 1..172 and half-integers, random direct/reflection/near-pole/overflow-edge/tiny arguments and specials; beta on (1e-3,80)^2 linear and log-uniform plus negative arguments; digamma on integers, log-uniform (1e-3,1e6), recurrence depths, negative arguments, specials; erf on [-6,6], +-40, tiny and special arguments; every case carries the libm calls (pow, exp, sin, ln) the implementation made; non-trivial = argument off the trivial points 1, 2 (gamma), 6 (digamma), 0 (erf); distinct by hash of the case term");
+    cs.write(outdir, 500, "gamma at all integers 1..172 and half-integers, random direct/reflection/near-pole/overflow-edge/tiny arguments and specials; beta on (1e-3,80)^2 linear and log-uniform plus negative arguments; digamma on integers, log-uniform (1e-3,1e6), recurrence depths, negative arguments, specials; erf on [-6,6], +-40, tiny and special arguments; (coverage audit) gamma at negative half-integers, tiny negative arguments, around the branch switch 1/2 and both ends of (-170, 171.6), extreme magnitudes; beta in the corners and on the edges of (1e-3,80)^2 and where a factor overflows, is a pole or NaN; digamma at half-integers, integers up to 1e4, both ends of (1e-3,1e6), the neighbours of 1..7; erf where exp(-x^2) underflows, f32 arguments, the ends 6 and 40; every case carries the libm calls (pow, exp, sin, ln) the implementation made; non-trivial = argument off the trivial points 1, 2 (gamma), 6 (digamma), 0 (erf); distinct by hash of the case term");
 }
